@@ -684,6 +684,7 @@ class MQTTBaseProtocol(Protocol):
         def connectError():
             request.deferred.errback(MQTTTimeoutError("CONNACK"))
             request.deferred = None
+            self.state = self.IDLE      # a late CONNACK must find nobody waiting
             self.transport.abortConnection()            
 
         try:
